@@ -170,15 +170,12 @@ Proof. cap_brute. Qed.
 Lemma caprim_saveincr_inv : forall a a', caprim a SSaveIncr = Some a' -> a_ph a = PhBuilt /\ a_ph a' = PhSaved /\ a_q a' = a_q a.
 Proof. cap_brute. Qed.
 Lemma caprim_incronly_inv : forall a a', caprim a SIncrOnly = Some a' ->
-  a_ph a = PhBuilt /\ a_ph a' = PhSaved /\ a_q a' = a_q a /\ a_kp a = Some false.
-Proof.
-  intros a a'. destruct a as [hs hr hw ph q kp mr nr]. cbn. destruct hs, ph; cbn; try discriminate.
-  destruct (okp_eqb kp (Some false)) eqn:E; [|discriminate]. apply okp_eqb_eq in E. intros H; inversion H; subst; cbn. auto.
-Qed.
+  a_ph a = PhBuilt /\ a_ph a' = PhSaved /\ a_q a' = a_q a.
+Proof. cap_brute. Qed.
 Lemma caprim_rbuild_inv : forall a a' st, cisbuild st = true -> caprim a st = Some a' -> a_ph a' = PhRBuilt /\ a_q a' = a_q a.
 Proof.
   intros a a' st Hb. destruct a as [hs hr hw ph q kp mr nr]. destruct st; try discriminate Hb; cbn;
-    destruct ph; cbn; try discriminate; intros H; inversion H; subst; cbn; auto.
+    destruct ph, hw; cbn; try discriminate; intros H; inversion H; subst; cbn; auto.
 Qed.
 Lemma caprim_append_inv : forall a a', caprim a SAppend = Some a' ->
   a_q a <> QStale /\ a_ph a' = PhIdle /\ a_q a' <> QStale /\ a_q a' <> QEmpty /\ (a_ph a = PhSaved \/ a_ph a = PhRBuilt).
@@ -293,11 +290,12 @@ Proof.
         -- intros Hn n i Hin. destruct (Hgood Hn) as [_ Hb]. destruct (Hb n i Hin). lia.
     + rewrite Ha, P3. intros Hn. eapply cq_good_quiet; eauto. lia.
   - (* SIncrOnly *)
-    destruct (caprim_incronly_inv _ _ Hap) as (P1 & P2 & P3 & P4).
+    destruct (caprim_incronly_inv _ _ Hap) as (P1 & P2 & P3).
     destruct Heff as (E1 & E2 & E3 & E4). destruct Hsto as (_ & E5 & _).
     destruct (l3_built _ _ L3 P1) as (id0 & Hpend).
     assert (Hsq : th_seq l = c_snd g) by auto.
-    assert (Hnp : c_persist g = false) by (apply (l1_kp _ _ _ L); exact P4).
+    assert (Hnp : c_persist g = false).
+    { destruct (l1_np _ _ _ L) as [E|E]; [exact E|]. rewrite Hpc in E. cbn in E. discriminate E. }
     assert (Hq : cquiet (c_trace g) (c_trace g')) by (rewrite E4; apply cquiet_cons; reflexivity).
     split; [eapply cglob3_quiet; eauto; lia|split].
     + constructor; rewrite Ha, ?P2, ?P3; try discriminate.
